@@ -92,7 +92,7 @@ func chClosed(ch <-chan struct{}) bool {
 
 // c12Run executes one schedule.  choose(enabled) picks the index of the thread to release and, for
 // a thread parked inside runFunc, the decision.
-func c12Run(tr *vh.Transcript, progs []c12Prog, choose func(enabled []string) (int, bool), maxSteps int) {
+func c12Run(tr *vh.Transcript, progs []c12Prog, choose func(enabled []string) (int, string), maxSteps int) {
 	ctl := &c12Ctl{threads: map[int]string{}, parked: map[string]*c12Park{}, finished: map[string]bool{}}
 	parent, cancelParent := context.WithCancel(context.Background())
 	defer cancelParent()
@@ -110,6 +110,10 @@ func c12Run(tr *vh.Transcript, progs []c12Prog, choose func(enabled []string) (i
 		ctl.mu.Unlock()
 		if d == "own" {
 			return errOwn
+		}
+		if d == "ownctx" {
+			// an error of its own that happens to be context-typed (e.g. an internal timeout)
+			return fmt.Errorf("internal timeout: %w", context.DeadlineExceeded)
 		}
 		<-ctx.Done()
 		return fmt.Errorf("stopped: %w", ctx.Err())
@@ -194,7 +198,8 @@ func c12Run(tr *vh.Transcript, progs []c12Prog, choose func(enabled []string) (i
 				}
 				break
 			}
-			idx, own := choose(enabled)
+			idx, ownKind := choose(enabled)
+			own := ownKind != ""
 			n := enabled[idx%len(enabled)]
 			ctl.mu.Lock()
 			p := ctl.parked[n]
@@ -207,7 +212,7 @@ func c12Run(tr *vh.Transcript, progs []c12Prog, choose func(enabled []string) (i
 					// the function may always return on its own; it returns a context error only
 					// once its context is cancelled: if it is not, "ctx" means: keep waiting for it
 					if own {
-						decision = "own"
+						decision = ownKind
 					} else {
 						decision = "ctx-wait"
 					}
@@ -329,18 +334,21 @@ func TestVerifC12(t *testing.T) {
 		tr.Case(0, "replay")
 		i := 0
 		synctest.Test(t, func(t *testing.T) {
-			c12Run(tr, progs, func(enabled []string) (int, bool) {
+			c12Run(tr, progs, func(enabled []string) (int, string) {
 				if i >= len(steps) {
-					return 0, false
+					return 0, ""
 				}
 				s := steps[i]
 				i++
 				for k, n := range enabled {
 					if n == s[1] {
-						return k, len(s) > 3 && s[3] == "own"
+						if len(s) > 3 && (s[3] == "own" || s[3] == "ownctx") {
+							return k, s[3]
+						}
+						return k, ""
 					}
 				}
-				return 0, false
+				return 0, ""
 			}, len(steps))
 		})
 		return
@@ -353,8 +361,14 @@ func TestVerifC12(t *testing.T) {
 		tr.Case(c, "schedule")
 		bias := r.Intn(3) // 0 uniform, 1 prefer callers, 2 prefer goroutines
 		synctest.Test(t, func(t *testing.T) {
-			c12Run(tr, progs, func(enabled []string) (int, bool) {
-				own := r.Bool(12)
+			c12Run(tr, progs, func(enabled []string) (int, string) {
+				own := ""
+				if r.Bool(12) {
+					own = "own"
+					if r.Bool(35) {
+						own = "ownctx"
+					}
+				}
 				if bias != 0 && r.Bool(70) {
 					var pref []int
 					for k, n := range enabled {
